@@ -531,6 +531,10 @@ class Interp(object):
         if isinstance(base, Opaque):
             if attr in base.attrs:
                 return base.attrs[attr]
+            if self.externals is not None:
+                r = self.externals.getattr(self, base, attr)
+                if r is not NotImplemented:
+                    return r
             return BoundMethod(base, attr)
         if isinstance(base, SliceVal) and attr in ("start", "stop", "step"):
             return getattr(base, attr)
